@@ -810,6 +810,11 @@ func Chunked(r *rand.Rand, at events.ArrayType, count uint64, data []byte, strin
 // (bit arrays: multiples of 8 bits except the last chunk; strings: character boundaries).
 // Data events split anywhere inside a chunk when splitData is requested via r.
 func ChunkBody(r *rand.Rand, elemBits int, count uint64, data []byte, stringlike bool) []ev.Event {
+	return ChunkBodyOpt(r, elemBits, count, data, stringlike, true)
+}
+
+// ChunkBodyOpt is ChunkBody with a choice of whether data events of multi-byte element arrays stay element aligned.
+func ChunkBodyOpt(r *rand.Rand, elemBits int, count uint64, data []byte, stringlike bool, alignData bool) []ev.Event {
 	var out []ev.Event
 	remaining := count
 	off := 0
@@ -847,7 +852,7 @@ func ChunkBody(r *rand.Rand, elemBits int, count uint64, data []byte, stringlike
 			k := len(chunk)
 			if r.Intn(2) == 0 {
 				k = 1 + r.Intn(len(chunk))
-				if !stringlike && elemBits > 8 {
+				if alignData && !stringlike && elemBits > 8 {
 					// keep data events element aligned (interface contract for typed arrays)
 					es := elemBits / 8
 					k = (k + es - 1) / es * es
@@ -1018,4 +1023,33 @@ func (g *streamGen) record(depth int) {
 	}
 	g.pseudo()
 	g.emit(ev.Event{K: ev.END})
+}
+
+// Rechunk rewrites every whole array / media / custom event of a stream into chunked form at random
+// boundaries; data events may split anywhere (mid-element, mid-character) when alignData is false.
+func Rechunk(r *rand.Rand, log []ev.Event, alignData bool) []ev.Event {
+	var out []ev.Event
+	for _, e := range log {
+		switch e.K {
+		case ev.ARR:
+			sl := e.AT == events.ArrayTypeString || e.AT == events.ArrayTypeResourceID || e.AT == events.ArrayTypeReferenceRemote
+			out = append(out, ev.Event{K: ev.ABEGIN, AT: e.AT})
+			out = append(out, ChunkBodyOpt(r, e.AT.ElementSize(), e.U, e.B, sl, alignData)...)
+		case ev.STRARR:
+			out = append(out, ev.Event{K: ev.ABEGIN, AT: e.AT})
+			out = append(out, ChunkBodyOpt(r, 8, uint64(len(e.S)), []byte(e.S), true, alignData)...)
+		case ev.MEDIA:
+			out = append(out, ev.Event{K: ev.MBEGIN, S: e.S})
+			out = append(out, ChunkBodyOpt(r, 8, uint64(len(e.B)), e.B, false, alignData)...)
+		case ev.CUSTB:
+			out = append(out, ev.Event{K: ev.CBEGIN, AT: events.ArrayTypeCustomBinary, U: e.U})
+			out = append(out, ChunkBodyOpt(r, 8, uint64(len(e.B)), e.B, false, alignData)...)
+		case ev.CUSTT:
+			out = append(out, ev.Event{K: ev.CBEGIN, AT: events.ArrayTypeCustomText, U: e.U})
+			out = append(out, ChunkBodyOpt(r, 8, uint64(len(e.S)), []byte(e.S), true, alignData)...)
+		default:
+			out = append(out, e)
+		}
+	}
+	return out
 }
